@@ -3,6 +3,7 @@ import GrinVerif.Lemmas.NrdPath
 belongs to: `verifyWalk` over the flattened kernels = `applyBlocks` over the blocks. -/
 namespace GV.Nrd
 variable {ε : Type} [DecidableEq ε]
+set_option linter.unusedSectionVars false
 
 /-- state of the walk while the kernels of block `b` (first of the remaining path, sizes before it
 at most `c`) are being read: either the current header is still at or below `c` with only headers
